@@ -1735,8 +1735,10 @@ EXT["numpy.argmin"] = _np_arg("argmin")
 
 @model("numpy.quantile")
 def _np_quantile(ex, args, kwargs, node):
-    v = _arr(ex, args[0], node)
-    q = args[1]
+    v = _arr(ex, _kw(args, kwargs, 0, "a"), node)
+    q = _kw(args, kwargs, 1, "q")
+    if not isinstance(q, Num) or q.nf is None:
+        raise Undecided("np.quantile without a numeric q", node)
     r = ex.mk("quantile", ex.as_nf(v, node), q.nf, shape=(), dtype="float")
     r.meta["quantile_of"] = v
     ex.emit("quantile", node, over=v, q=q, result=r)
